@@ -99,6 +99,9 @@ inductive Kind where
   | challengeDone
   /-- from here on a failure is reported to the NOTIFYING webhooks (`NotifyFailure`) -/
   | arm
+  /-- from here on the store writes the provisioner data with the certificate
+      (`StoreCertificateChain`; the SSH sign handler's X.509 identity certificate) -/
+  | withData
   /-- one NOTIFYING webhook: its failure is ignored by the request (it only ends the
       notification loop; `allow` is not looked at) -/
   | notify
@@ -140,6 +143,10 @@ structure St where
   /-- SCEP: a NOTIFYING webhook failed; `notificationController.Success/Failure` returned at
       that point, the remaining NOTIFYING webhooks are not called -/
   muted : Bool := false
+  /-- certificates signed so far in this request -/
+  made : Nat := 0
+  /-- of those, how many no store call has written yet -/
+  unstored : Nat := 0
   deriving Repr
 
 structure Env where
@@ -179,7 +186,9 @@ def decide' (e : Env) (s : St) : Bool × St := (e.g s.chk, { s with chk := s.chk
 
 def spend (s : St) : St := { s with d := { s.d with tokenSpent := true } }
 def addCert (s : St) (withData : Bool) : St :=
-  { s with d := { s.d with certs := s.d.certs + 1, datas := s.d.datas + (if withData then 1 else 0) } }
+  { s with d := { s.d with certs := s.d.certs + 1, datas := s.d.datas + (if withData then 1 else 0) },
+           unstored := s.unstored - 1 }
+def signed (s : St) : St := { s with cert := true, made := s.made + 1, unstored := s.unstored + 1 }
 def addRev (s : St) : St := { s with d := { s.d with revoked := true } }
 
 /-- the steps that go to the authority database -/
@@ -234,10 +243,10 @@ def execDB (e : Env) (s : St) : Kind → R
     if r.1 then .next r.2 else .abort r.2
   | .casSign =>
     let r := call e s .casSign
-    if r.1 = .ok then .next { r.2 with cert := true } else .abort r.2
+    if r.1 = .ok then .next (signed r.2) else .abort r.2
   | .sshSign =>
     let r := decide' e s
-    if r.1 then .next { r.2 with cert := true } else .abort r.2
+    if r.1 then .next (signed r.2) else .abort r.2
   | .req t =>
     let r := call e s (.req t)
     if r.1 = .ok then .next r.2 else .abort r.2
@@ -261,6 +270,7 @@ def execDB (e : Env) (s : St) : Kind → R
     | _ => .abort r.2
   | .challengeDone => if s.allowed = 0 then .abort s else .next s
   | .arm => .next { s with armed := true }
+  | .withData => .next { s with dataOk := true }
   | .notify =>
     if s.muted then .next s
     else
@@ -284,6 +294,9 @@ def run (e : Env) : List Kind → St → St × Bool
 inductive Op where
   | sign | renew | rekey | revoke | revokeMTLS
   | sshSign | sshRenew | sshRekey | sshRevoke | acmeFinalize | scepEnroll
+  /-- `api.SSHSign` with `addUserPublicKey` and `identityCSR`: user, add-user and X.509
+      identity certificate in one request -/
+  | sshSignFull
   deriving DecidableEq, Repr
 
 /-- the provisioner's webhooks (numbers of ENRICHING, AUTHORIZING, SCEPCHALLENGE, NOTIFYING
@@ -339,6 +352,11 @@ def revokeSourceOrder : List Kind :=
     authorizing webhooks; sign; certificate validators; store. -/
 def signSSHSteps (c : Cfg) : List Kind :=
   [.check] ++ List.replicate c.e .enrich ++ [.check] ++ List.replicate c.a .authorize ++ [.sshSign, .check, .store]
+/-- `SignSSHAddUser`: `IsValidForAddUser`; sign with the user key; `storeRenewedSSHCertificate`. -/
+def signSSHAddUserSteps : List Kind := [.check, .sshSign, .store]
+/-- identity certificate in `api.SSHSign`: `Authorize` again with token reuse skipped (no
+    record call, validation only), then `SignWithContext` (= `signX509`; X.509 webhooks). -/
+def identitySteps (c : Cfg) : List Kind := [.withData, .check] ++ signX509Steps c
 /-- `renewSSH`: `authorizeSSHCertificate` (IsSSHRevoked); sign; store. -/
 def renewSSHSteps : List Kind := [.isRevoked, .sshSign, .store]
 /-- `rekeySSH`: `authorizeSSHCertificate`; sign; validators; store. -/
@@ -396,9 +414,10 @@ def steps : Op → Cfg → List Kind
   | .sshRevoke, _ => authorizeSteps ++ revokeSSHSteps
   | .acmeFinalize, c => finalizeHandlerPre ++ finalizeSteps 1 c
   | .scepEnroll, c => pkiOperationSteps c
+  | .sshSignFull, c => authorizeSteps ++ signSSHSteps c ++ signSSHAddUserSteps ++ identitySteps c
 
 def Op.usesToken : Op → Bool
-  | .sign | .revoke | .sshSign | .sshRenew | .sshRekey | .sshRevoke => true
+  | .sign | .revoke | .sshSign | .sshRenew | .sshRekey | .sshRevoke | .sshSignFull => true
   | _ => false
 
 def Op.revokes : Op → Bool
@@ -430,6 +449,18 @@ inductive Client where
     no `status: ok`); otherwise the certificate / the acknowledgement is sent. -/
 def client (op : Op) (r : St × Bool) : Client :=
   if r.2 then (if op.revokes then .revoked else .certificate) else .error
+
+/-! ### every certificate made is stored -/
+
+/-- effect of one step, when it lets the request continue, on the number of certificates
+    signed but not yet written -/
+def pendingStep (u : Nat) : Kind → Nat
+  | .casSign | .sshSign => u + 1
+  | .store => u - 1
+  | _ => u
+
+/-- number of signed, unwritten certificates after the whole list ran (database configured) -/
+def pending (ks : List Kind) (u : Nat) : Nat := ks.foldl pendingStep u
 
 /-! ### what a completed request's trace may contain -/
 
@@ -470,6 +501,7 @@ def Kind.str : Kind → String
   | .req .acmeRead => "acmeRead" | .req .acmeIndex => "acmeIndex" | .req .acmeNonceNew => "acmeNonceNew"
   | .acmeStoreCert => "acmeStoreCert" | .acmeUpdateOrder => "acmeUpdateOrder"
   | .challenge => "challenge" | .challengeDone => "challengeDone" | .arm => "arm" | .notify => "notify"
+  | .withData => "withData"
 
 /-- How the source must treat the error of a call of this kind (compared with the go/ast
     extraction): `!` the error aborts before the success return, `!~` same but
